@@ -653,6 +653,39 @@ func c02Load(tc *c02Case, allowExternal bool) *c02Loaded {
 		}
 		res.reads = []any{}
 		res.doc, res.err = loader.LoadFromFile(rootPath)
+	case "resolvein", "file_abs_toggled", "resolvein_toggled", "file_abs_retry", "resolvein_retry":
+		// histories of one Loader whose switch is changed between two uses (spec/Gen_C02.tla HistoryEntries)
+		if strings.HasSuffix(tc.Entry, "_toggled") {
+			lone, err := os.MkdirTemp("", "verif-c02-lone-")
+			if err != nil {
+				panic(err)
+			}
+			defer os.RemoveAll(lone)
+			other := filepath.Join(lone, "other.json")
+			os.WriteFile(other, []byte(`{"openapi":"3.0.3","info":{"title":"other","version":"1"},"paths":{}}`), 0o644)
+			loader.IsExternalRefsAllowed = !allowExternal
+			if _, err := loader.LoadFromFile(other); err != nil {
+				panic("harness: reference-free document did not load: " + err.Error())
+			}
+		}
+		if strings.HasSuffix(tc.Entry, "_retry") {
+			loader.IsExternalRefsAllowed = !allowExternal
+			guard(func() { loader.LoadFromFile(rootPath) })
+		}
+		loader.IsExternalRefsAllowed = allowExternal
+		res.reads = []any{}
+		if strings.HasPrefix(tc.Entry, "resolvein") {
+			doc := &openapi3.T{}
+			if err := json.Unmarshal(rootBytes, doc); err != nil {
+				res.err = err
+			} else if err := loader.ResolveRefsIn(doc, &url.URL{Path: filepath.ToSlash(rootPath)}); err != nil {
+				res.err = err
+			} else {
+				res.doc = doc
+			}
+		} else {
+			res.doc, res.err = loader.LoadFromFile(rootPath)
+		}
 	case "file_rel", "file_rel_default":
 		wd, _ := os.Getwd()
 		os.Chdir(dir)
